@@ -4,6 +4,8 @@ import BiotiteModel.Proofs.C08AffOpt
 import BiotiteModel.Proofs.C08Semi
 import BiotiteModel.Proofs.C08Prefix
 import BiotiteModel.Proofs.C08Trace
+import BiotiteModel.Proofs.C08Local
+import BiotiteModel.Proofs.C08LookupLocal
 import BiotiteModel.Gen.C08
 /-!
 # C08 — property theorems (optimal pairwise alignment returns the true optimum)
@@ -436,7 +438,7 @@ theorem C08_traces_valid (mode : Mode) (hm : mode ≠ .local) (M : Mat) (g : Int
     (h : aln ∈ tracesLin mode M g a b (linRec mode M g a b).val mx) :
     Valid mode a b aln ∧ score mode (.lin g) M a b aln = opt mode M g a b := by
   have hmem := List.mem_of_mem_take h
-  obtain ⟨pre, p0, he, hw, hs, h0⟩ := followLin_good mode M g a b mx _ _ _ _ aln hmem
+  obtain ⟨pre, p0, he, hw, hs, h0, _⟩ := followLin_good mode M g a b mx _ _ _ _ aln hmem
   have hp0 := dirs_nil_origin mode hm M g a b p0 h0
   subst hp0
   simp only [List.append_nil] at he
@@ -464,6 +466,61 @@ theorem C08_traces_valid_local (M : Mat) (g : Int) (a b : Seq) (mx fuel c : Nat)
   refine ⟨⟨p0.1, p0.2, p.1, p.2, hw, hi, hj⟩, ?_⟩
   rw [C08_checker_score_lin _ _ _ _ _ (by decide), scoreLin_eq_pos M g a b aln p0]
   exact hs
+
+/-- The traces `follow_trace` yields from one start cell are pairwise distinct (different branch choices at some
+cell give different columns there), for any score table `V`. -/
+theorem C08_traces_distinct_start (mode : Mode) (M : Mat) (g : Int) (a b : Seq) (V : Nat → Nat → Int)
+    (mx fuel c : Nat) (p : Nat × Nat) (suffix : Aln) :
+    (followLin (traceDirs mode M g a b V) mx fuel p suffix c).1.Nodup :=
+  followLin_nodup _ (traceDirs_nodup mode M g a b V) mx fuel p suffix c
+
+/-- global / semi-global: the returned alignments are pairwise distinct. -/
+theorem C08_traces_distinct (mode : Mode) (M : Mat) (g : Int) (a b : Seq) (V : Nat → Nat → Int) (mx : Nat) :
+    (tracesLin mode M g a b V mx).Nodup :=
+  List.Nodup.sublist (List.take_sublist _ _) (C08_traces_distinct_start mode M g a b V mx _ 1 _ [])
+
+/-- Local mode as one statement: the list assembled over every start cell (all cells holding the table maximum,
+one `follow_trace` call each, truncated to `max_number`) consists of valid local alignments whose public score is
+the optimum; it has at most `max_number` entries; its non-empty entries are pairwise distinct (`g ≤ 0`); and it is
+not empty. -/
+theorem C08_traces_local (M : Mat) (g : Int) (a b : Seq) (mx : Nat) :
+    (∀ aln ∈ tracesLocalLin M g a b (linRec .local M g a b).val mx,
+      ValidLocal a b aln ∧ score .local (.lin g) M a b aln = optLocal M g a b) ∧
+    (tracesLocalLin M g a b (linRec .local M g a b).val mx).length ≤ mx ∧
+    (g ≤ 0 → ((tracesLocalLin M g a b (linRec .local M g a b).val mx).filter (fun x => !x.isEmpty)).Nodup) ∧
+    (1 ≤ mx → tracesLocalLin M g a b (linRec .local M g a b).val mx ≠ []) := by
+  refine ⟨?_, List.length_take_le _ _, ?_, ?_⟩
+  · intro aln h
+    obtain ⟨p, hp, hx⟩ := List.mem_flatMap.mp (List.mem_of_mem_take h)
+    obtain ⟨hi, hj, hv⟩ := localStarts_mem _ _ _ p hp
+    obtain ⟨h1, h2⟩ := C08_traces_valid_local M g a b mx _ 1 p hi hj aln hx
+    exact ⟨h1, by rw [h2, hv]; rfl⟩
+  · intro hg
+    apply List.Nodup.sublist (List.Sublist.filter _ (List.take_sublist _ _))
+    apply flatMap_filter_nodup endKey _ _ (localStarts_nodup _ _ _)
+    · intro p _
+      exact C08_traces_distinct_start .local M g a b _ mx _ 1 p []
+    · intro p _ x hx hne
+      exact local_endKey M g hg a b mx _ 1 p x hx hne
+  · intro hmx h
+    rw [tracesLocalLin, List.take_eq_nil_iff] at h
+    rcases h with h | h
+    · omega
+    · have hne := localStarts_ne_nil (linRec .local M g a b).val (local_nonneg M g a b) rfl a.length b.length
+      cases hs : localStarts (linRec .local M g a b).val a.length b.length with
+      | nil => exact hne hs
+      | cons p ps =>
+        rw [hs, List.flatMap_cons, List.append_eq_nil_iff] at h
+        exact followLin_nonempty .local M g a b mx (p.1 + p.2 + 1) p [] 1 (by omega) h.1
+
+/-- What the driver runs (`followLin` over a lookup into the filled table `fillLin`) is `followLin` over the
+recurrence the traceback theorems speak about — global, semi-global and local. -/
+theorem C08_traces_lookup (mode : Mode) (M : Mat) (g : Int) (a b : Seq) (mx : Nat) :
+    tracesLin mode M g a b (tableLookup (fillLin mode M g a b)) mx
+        = tracesLin mode M g a b (linRec mode M g a b).val mx ∧
+    tracesLocalLin M g a b (tableLookup (fillLin .local M g a b)) mx
+        = tracesLocalLin M g a b (linRec .local M g a b).val mx :=
+  ⟨tracesLin_lookup mode M g a b mx, tracesLocalLin_lookup M g a b mx⟩
 
 /-- `follow_trace` started with counter 1 returns at most `max_number` traces (before the final truncation). -/
 theorem C08_traces_count (dirs : Nat × Nat → List Dir) (mx fuel : Nat) (hmx : 1 ≤ mx) (p : Nat × Nat) :
@@ -557,5 +614,10 @@ example : (tracesLin .global (Mat.ofRows [[1]]) 0 [0, 0] [0] (linRec .global (Ma
   decide
 example : (tracesLin .global (Mat.ofRows [[1]]) 0 [0, 0] [0] (linRec .global (Mat.ofRows [[1]]) 0 [0, 0] [0]).val 1).length = 1 := by
   decide
+/-- local, nothing positive: four start cells, four empty alignments, `max_number` 3 keeps three -/
+example : tracesLocalLin (Mat.ofRows [[-1]]) (-1) [0] [0] (linRec .local (Mat.ofRows [[-1]]) (-1) [0] [0]).val 3
+    = [[], [], []] := by decide
+example : tracesLocalLin (Mat.ofRows [[2]]) (-1) [0] [0] (linRec .local (Mat.ofRows [[2]]) (-1) [0] [0]).val 3
+    = [[.both 0 0]] := by decide
 
 end BiotiteModel.C08
